@@ -28,8 +28,8 @@ impl Family for C02Family {
 
     fn total(&self, tier: Tier) -> u64 {
         match tier {
-            Tier::Quick => 6_000,
-            Tier::Thorough => 500_000,
+            Tier::Quick => 50_000,
+            Tier::Thorough => 4_000_000,
         }
     }
 
